@@ -911,9 +911,25 @@ func (e *Exec) runPendingTasks() {
 	for len(e.tasks) > 0 {
 		t := e.tasks[0]
 		e.tasks = e.tasks[1:]
-		e.doCall(nil, t.cc, t.fv, t.args)
+		func() {
+			e.inTask++
+			defer func() {
+				e.inTask--
+				if r := recover(); r != nil {
+					if _, ok := r.(taskParked); !ok {
+						panic(r)
+					}
+					e.rep.Stubs["goroutine parked in a blocking receive with nothing left to deliver (abandoned)"]++
+				}
+			}()
+			e.doCall(nil, t.cc, t.fv, t.args)
+		}()
 	}
 }
+
+// taskParked unwinds a goroutine (delayed task) that blocks in a receive which nothing in the harness can satisfy any more:
+// a server loop waiting for the next datagram. The goroutine is abandoned at that point, as if the observation ended there.
+type taskParked struct{}
 
 func (e *Exec) chanSend(ch *ChanObj, v Value) {
 	if ch == nil {
